@@ -85,6 +85,8 @@ pub fn deviations_ex(cfg: &AttackCfg, r: &RefRun, seed: u64, also_live: bool) ->
         match s.phase.as_str() {
             "RNG comm" => edits.push((tag("commitment"), MutSpec::At { path: vec![0], op: LeafOp::XorBytes(vec![1 << rng.random_range(0..8)]) })),
             "RNG ver" => edits.push((tag("opening"), MutSpec::At { path: vec![rng.random_range(0..32)], op: LeafOp::XorU8(1 << rng.random_range(0..8)) })),
+            "KOS_OT_toss_comm" => edits.push((tag("commitment"), MutSpec::At { path: vec![rng.random_range(0..32)], op: LeafOp::XorU8(1 << rng.random_range(0..8)) })),
+            "KOS_OT_toss_open" => edits.push((tag("opening"), MutSpec::At { path: vec![rng.random_range(0..32)], op: LeafOp::XorU8(1 << rng.random_range(0..8)) })),
             "CO_OT_s" => edits.push((tag("point"), MutSpec::At { path: vec![rng.random_range(0..32)], op: LeafOp::XorU8(1 << rng.random_range(0..8)) })),
             "CO_OT_c0c1" => {
                 for j in idxs(len, &mut rng).into_iter().take(2) {
@@ -339,6 +341,7 @@ pub fn oracle_a(d: &Dev, run: &MpcRun) -> (Vec<Violation>, u64) {
 // B: commit-before-reveal over a recorded history
 
 const COMMIT_REVEAL: &[(&str, &[&str])] = &[
+    ("KOS_OT_toss_comm", &["KOS_OT_toss_open"]),
     ("RNG comm", &["RNG ver"]),
     ("fashare comm", &["fashare ver", "fashare di_bi"]),
     ("flaand comm", &["flaand hash"]),
@@ -368,7 +371,7 @@ pub fn oracle_b(n: usize, honest: &[usize], transcript: &[TrMsg], recvs: &[RecvR
                     };
                     checked += 1;
                     // pairwise toss (round 0 of "RNG comm") binds only the pair; later rounds bind everybody
-                    let pairwise = *commit == "RNG comm" && k == 0;
+                    let pairwise = (*commit == "RNG comm" && k == 0) || *commit == "KOS_OT_toss_comm";
                     for q in (0..n).filter(|q| *q != p) {
                         if pairwise && q != m.to {
                             continue;
